@@ -18,6 +18,8 @@ def run(ctx):
     S.key_role(ctx, L)
     ctx.rule("R-DELIVER-GUARD", "delivery: complete -> truncate -> once -> remove -> ack iff destination-specific", floor=3)
     S.deliver_guard(ctx, L)
+    ctx.rule("R-BAM-FRESH", "a new broadcast announcement never inherits the data of an unfinished one (no mixed message)", floor=1)
+    S.bam_fresh(ctx, L)
     ctx.rule("R-REFRESH", "each appended, non-completing data packet re-arms the receive deadline", floor=2)
     S.refresh(ctx, L)
     ctx.rule("R-ORDER-SEND", "state advanced before RTS / connection-mode DT is handed to the bus", floor=2)
@@ -35,6 +37,9 @@ def run(ctx):
     LY.single_frame(ctx, L)
     ctx.rule("R-DELIVER-ARGS", "single-frame delivery hands listeners the frame's own priority, PGN, source, destination, data", floor=2)
     LY.deliver_args(ctx, L)
+    ctx.rule("R-ANNOUNCED-PGN", "RTS/BAM and the send session carry data page | PF | (PS or 0) of the arguments", floor=4)
+    from rules import layout as _LY
+    _LY.announced_pgn(ctx, L)
     ctx.rule("R-DEST-CLASS", "BAM iff PS==255 or PDU2, RTS/CTS to PS otherwise; single frame iff len<=8", floor=3)
     T.dest_class(ctx, L)
     ctx.rule("R-REFUSE", "send_pgn returns False only when the pair is busy, without effects", floor=1)
